@@ -315,9 +315,22 @@ func (e *Engine) envLookup(st *State, key *Term) (val *Term, found *Term) {
 func registerOS(e *Engine) {
 	e.Intr["os.Setenv"] = func(c *Call) []*State {
 		k, v := c.argTerm(0), c.argTerm(1)
-		c.St.World.Env = append(c.St.World.Env, EnvVar{Key: k, Val: v, Set: true})
-		c.St.Events = append(c.St.Events, Event{Kind: "setenv", Args: []Value{k, v}, Thr: c.Th.ID})
-		return c.Return(Iface{})
+		// syscall.Setenv: EINVAL for an empty key, '=' or NUL in the key, NUL in the value (environment unchanged)
+		nul := StrC("\x00")
+		invalid := Or(Eq(k, StrC("")), StrContains(k, StrC("=")), StrContains(k, nul), StrContains(v, nul))
+		set := func(st *State) {
+			st.World.Env = append(st.World.Env, EnvVar{Key: k, Val: v, Set: true})
+			st.Events = append(st.Events, Event{Kind: "setenv", Args: []Value{k, v}, Thr: c.Th.ID})
+		}
+		if invalid.Const {
+			if invalid.B {
+				return c.Return(c.E.newErrorString(c.St, StrC("setenv: invalid argument")))
+			}
+			set(c.St)
+			return c.Return(Iface{})
+		}
+		errv := c.E.newErrorString(c.St, StrC("setenv: invalid argument"))
+		return c.Outcomes(c.sol2(), []Outcome{{Cond: Not(invalid), Ret: Iface{}, Eff: set}, {Cond: invalid, Ret: errv}})
 	}
 	e.Intr["os.Unsetenv"] = func(c *Call) []*State {
 		c.St.World.Env = append(c.St.World.Env, EnvVar{Key: c.argTerm(0), Set: false})
